@@ -271,7 +271,24 @@ def fam_misc(tier):
     env3.extra = [b'=el', b'=elx', b'if,1', b'x,1', b'1,if', b'1=1x', b'1=if', b'=if1', b'x,if', b'1,1']
     env3.family = 'misc'
     env3.audit = True
-    return [env, env2, env3]
+    # backtracking that restarts a non-leaf rule BEFORE the furthest failure (a later alternative, the element after a failed
+    # optional, the body after a successful look-ahead): the "by <rule>" context of the report
+    rules4 = [
+        ('one', 'inh', 'both', S('1'), False),
+        ('two', 'inh', 'both', S('2'), False),
+        ('first', 'inh', 'both', seq('inh', S('x'), S('y'), rule('one')), False),
+        ('second', 'inh', 'both', seq('inh', S('x'), S('y'), rule('two')), False),
+        ('alt', 'inh', 'both', choice(rule('first'), rule('second')), False),
+        ('optf', 'inh', 'both', seq('inh', opt(rule('first')), rule('second')), False),
+        ('look', 'inh', 'both', seq('inh', pos(rule('first')), rule('second')), False),
+        ('deep', 'inh', 'both', choice(seq('inh', rule('alt'), S('!')), seq('inh', rule('second'), S('?'))), False),
+    ]
+    env4 = Env('mi_back', skip=None, rules=rules4, shapes=[('rule', r[0]) for r in rules4])
+    env4.alpha = [b'x', b'y', b'1', b'2', b'!', b'z']
+    env4.maxlen = 4 if tier == 'quick' else 5
+    env4.family = 'misc'
+    env4.audit = True
+    return [env, env2, env3, env4]
 
 
 # ------------------------------------------------------------------ uni: multi-byte alphabets (C09)
